@@ -248,7 +248,15 @@ func (e *Engine) generateReal(r *core.Rand, prop string, tier string) core.Trace
 		n = r.Range(10, 40)
 	}
 	base := uint64(0x10000 + 4*r.Intn(1024))
-	prog := rvref.RandomProgram(r, base, n, rvref.ProgOpts{Regs: r.Range(2, 6), JumpPct: r.Intn(10), MemPct: r.Range(0, 40), GapPct: r.Intn(8), NoBadJumps: true})
+	o := rvref.ProgOpts{Regs: r.Range(2, 6), JumpPct: r.Intn(10), MemPct: r.Range(0, 40), GapPct: r.Intn(8), NoBadJumps: true}
+	if r.Bool() {
+		// memory-heavy blocks over one or two fixed base registers: loads and
+		// stores of different widths that overlap and abut each other
+		o.MemPct = r.Range(40, 90)
+		o.PtrRegs = [][]int{{7}, {7, 8}}[r.Intn(2)]
+		o.Regs = r.Range(2, 5)
+	}
+	prog := rvref.RandomProgram(r, base, n, o)
 	for _, pi := range prog {
 		w := pi.Word
 		t.Ins = append(t.Ins, Ins{Addr: pi.Addr, Len: 4, Word: &w, Name: pi.Text})
